@@ -30,7 +30,7 @@ class C06(BaseCheck):
   RULE = ('case = one aperture balancer configuration (min_size 1-4, max_size in {min, min+k, 2^31}, '
           'bands (0.5,2) (1,1.5) (2,8), 1-16 members, jitter on/off) driven through 2-4 phases of steady '
           'traffic (K outstanding requests held by completing one and issuing one every delta for >= 60 '
-          'virtual s) separated by disturbances (member down/up, join/leave, bursts). Safety after every '
+          'virtual s; in every 5th case the wall clock is set back 20 or 60 s in the middle of each phase) separated by disturbances (member down/up, join/leave, bursts). Safety after every '
           'op: active/idle partition of the server set, contraction floor (and: never below the floor while idle members remain, whatever happened), load-driven growth cap, '
           'published gauges == set sizes; hook on _AdjustAperture: an event that finds smoothed load / size >= max_load with idle members and size < max_size returns with a larger active set. Bounded progress per healthy steady phase: every size seen in '
           'the last third lies in the interval implied by the band and a harness-side reference EMA. '
@@ -45,9 +45,9 @@ class C06(BaseCheck):
   REQUIRED_CLASSES = ('phase:in-band', 'phase:pinned-max', 'phase:pinned-min', 'phase:pinned-members',
                       'expansion', 'contraction', 'jitter-round', 'member-down', 'leave-active',
                       'leave-during-jitter-round', 'close-raises-in-jitter-round',
-                      'second-balancer-connecting')
+                      'second-balancer-connecting', 'wall-clock-steps-back')
   ASSUMPTIONS = ('smoothed load = harness reference EMA with the balancer\'s documented 5 s window and the '
-                 'same sampling points (cross-checked against the published load_average gauge); phases whose '
+                 'same sampling points, on the documented clock (wall time while it moves forward; standing still while a stepped-back wall clock is behind an earlier reading) (cross-checked against the published load_average gauge); phases whose '
                  'per-member load is within 1e-6 of a band edge for a relevant size are skipped and counted',
                  'bounded progress is judged only in phases with all members healthy, no membership change and '
                  'no jitter; eventual convergence is restated as: reached within 2/3 of a >= 60 s phase')
@@ -203,12 +203,22 @@ class C06(BaseCheck):
     label = w.top._varz  # noqa (kept alive)
     svc = lb._properties['label']
     ema = RefEma(5.0)
+    # The reference is sampled on the clock the smoothing is documented to use: the wall clock as long
+    # as it moves forward, standing still while it is behind an earlier reading (a stepped-back clock).
+    mono_last = [0.0]
+
+    def mono():
+      t_ = env.clock.time()
+      if t_ > mono_last[0]:
+        mono_last[0] = t_
+      return mono_last[0]
+    step_case = idx % 5 == 2
     # feed the reference EMA from the harness' own boundary events
     chan_cls = w.MemberChannel
     orig_apr = chan_cls.AsyncProcessRequest
 
     def apr(self_, sink_stack, msg, stream, headers):
-      ema.update(env.now, sum(w.out.values()) + 1)
+      ema.update(mono(), sum(w.out.values()) + 1)
       return orig_apr(self_, sink_stack, msg, stream, headers)
     chan_cls.AsyncProcessRequest = apr
     term = w.terminator
@@ -218,7 +228,7 @@ class C06(BaseCheck):
       first = not context['deliveries'] and context['channel'] is not None
       orig_deliver(sink_stack, context, stream, msg)
       if first:
-        ema.update(env.now, sum(w.out.values()))
+        ema.update(mono(), sum(w.out.values()))
     term.AsyncProcessResponse = deliver
 
     stats = {'expansions': 0, 'contractions': 0, 'phases_judged': 0, 'phases_skipped_edge': 0,
@@ -412,7 +422,13 @@ class C06(BaseCheck):
         op(issue)
       while len(live) > K:
         op(finish_one)
+      stepped = not step_case
       while env.now < t_end:
+        if not stepped and env.now > t_end - length / 2:
+          # the wall clock is set back (NTP step, VM resume) in the middle of a steady phase
+          stepped = True
+          env.clock.wall_offset -= rng.choice([20.0, 60.0])
+          classes.add('wall-clock-steps-back')
         if order == 'complete-first':
           op(finish_one)
           op(issue)
